@@ -131,9 +131,12 @@ def showbias(
     if isinstance(group_columns, str):
         groups = data[group_columns]
     elif isinstance(group_columns, Iterable):
-        groups = data.apply(
-            lambda row: "_".join(row[col] for col in group_columns), axis=1
-        )
+        # Rows are grouped by the tuple of their values. The tuples are encoded as
+        # integers, so that the values themselves can contain any character.
+        group_tuples = list(zip(*[data[col] for col in group_columns]))
+        group_keys = sorted(set(group_tuples))
+        group_codes = {key: code for code, key in enumerate(group_keys)}
+        groups = pd.Series([group_codes[key] for key in group_tuples], dtype=int)
     else:
         raise TypeError(
             f"Got unexpected type {type(group_columns)} value for `group_columns`"
@@ -161,6 +164,8 @@ def showbias(
         return getattr(sample.group_cm(**kwargs), metric)()
 
     group_names = score_object.groups
+    if not isinstance(group_columns, str):
+        group_names = [group_keys[code] for code in group_names]
     group_index = _get_group_index(group_names, group_columns)
     group_metrics = calculate_group_metric(score_object, **metric_kwargs)
 
@@ -303,11 +308,11 @@ def _get_group_index(group_names: np.ndarray, group_columns: Union[str, List[str
     Creates a pandas index object for group identifiers.
 
     Args:
-        group_names: Array of strings identifying groups. For MultiIndex, strings should
-            be concatenated values separated by underscores.
+        group_names: Array of strings identifying groups. For MultiIndex, a list of
+            tuples with one value per group column.
         group_columns: List of column names for grouping. The list's length should match
-            the number of elements in each group identifier when split by underscores.
-            Can be a single string for a simple Index.
+            the number of elements in each group identifier. Can be a single string for
+            a simple Index.
 
     Returns:
         pd.Index or pd.MultiIndex: A pandas Index or MultiIndex object representing the
@@ -315,10 +320,9 @@ def _get_group_index(group_names: np.ndarray, group_columns: Union[str, List[str
 
     Raises:
         ValueError: If `group_columns` is a list and the length of any group identifier
-        (when split) does not match the length of `group_columns`.
+        does not match the length of `group_columns`.
     """
     if isinstance(group_columns, list):
-        group_index = list(zip(*[group_name.split("_") for group_name in group_names]))
-        return pd.MultiIndex.from_arrays(group_index, names=group_columns)
+        return pd.MultiIndex.from_tuples(group_names, names=group_columns)
     else:
         return pd.Index(group_names, name=group_columns)
